@@ -7,7 +7,9 @@ import SpecVerif.Proofs.Lemmas.Grid
   Whole-loop invariance of the adaptive multitaper weighting (`adaptLoop`, `pmtmWeights .adapt`,
   `mtMean .adapt` of `SpecVerif/Model/Mtm.lean`): two runs of Thomson's iteration whose start states are
   related (scaled by `t`, or rotated by `m` bins) take the SAME stopping decisions at every pass and end
-  in related states, whatever the fuel.  Used by C03 (amplitude) and C04 (frequency shift).
+  in related states, whatever the fuel and whatever the start state.  `pmtmWeights .adapt` is one unconditional
+  pass (`adaptStep`, kept by the relations: `scaleRel_step`, `rotRel_step`) followed by the conditional loop with
+  fuel 99.  Used by C03 (amplitude) and C04 (frequency shift).
 -/
 namespace SpecVerif.AdaptL
 open Finset SpecVerif SpecVerif.ArmaL SpecVerif.MtmL SpecVerif.ShiftL
@@ -163,8 +165,9 @@ theorem pmtmWeights_adapt_scale [ReOrd K] {t : K} (ht : t ≠ 0)
   rw [pmtmWeights_adapt, pmtmWeights_adapt, adaptSig2_scale, hct]
   have e : tolc * (t * adaptSig2 x) / (nfft : K) = t * (tolc * adaptSig2 x / (nfft : K)) := by ring
   rw [e]
-  exact (adaptLoop_scale ht hgt hre SkA' SkA lams (adaptSig2 x) _ nfft lams.length hSk 100 _ _
-    (scaleRel_init t lams SkA' SkA nfft hSk)).2.2.1
+  exact (adaptLoop_scale ht hgt hre SkA' SkA lams (adaptSig2 x) _ nfft lams.length hSk 99 _ _
+    (scaleRel_step ht SkA' SkA lams (adaptSig2 x) nfft lams.length hSk _ _
+      (scaleRel_init t lams SkA' SkA nfft hSk))).2.2.1
 
 end ScaleData
 
@@ -311,8 +314,9 @@ theorem pmtmWeights_adapt_rot_row {n m : ℕ} (hm : m ≤ n) (x' x lams : List K
     (pmtmWeights .adapt x' lams SkA' n tolc).getD k []
       = (pmtmWeights .adapt x lams SkA n tolc).getD ((k + n - m) % n) [] := by
   rw [pmtmWeights_adapt, pmtmWeights_adapt, hsig]
-  exact (adaptLoop_rot hm SkA' SkA lams (adaptSig2 x) _ lams.length hSk 100 _ _
-    (rotRel_init lams SkA' SkA hSk)).2.2.1 k hk
+  exact (adaptLoop_rot hm SkA' SkA lams (adaptSig2 x) _ lams.length hSk 99 _ _
+    (rotRel_step SkA' SkA lams (adaptSig2 x) lams.length hSk _ _
+      (rotRel_init lams SkA' SkA hSk))).2.2.1 k hk
 
 /-- the same as a table: `numpy.roll(W, m, axis=0)` -/
 theorem pmtmWeights_adapt_rot {n m : ℕ} (hm : m ≤ n) (x' x lams : List K)
@@ -322,7 +326,7 @@ theorem pmtmWeights_adapt_rot {n m : ℕ} (hm : m ≤ n) (x' x lams : List K)
       = vec n (fun k => (pmtmWeights .adapt x lams SkA n tolc).getD ((k + n - m) % n) []) := by
   have hlen : (pmtmWeights .adapt x' lams SkA' n tolc).length = n := by
     rw [pmtmWeights_adapt]
-    exact (adaptLoop_shape SkA' lams _ _ n lams.length 100 _ (wkShape_vec n lams.length _)).1
+    exact (adaptLoop_shape SkA' lams _ _ n lams.length 99 _ (wkShape_vec n lams.length _)).1
   rw [eq_vec_getD (pmtmWeights .adapt x' lams SkA' n tolc) [], hlen]
   exact vec_ext (fun k hk => pmtmWeights_adapt_rot_row hm x' x lams SkA' SkA tolc hsig hSk hk)
 
